@@ -29,31 +29,32 @@ import (
 // Case is the input of one Fill call plus what was observed. Integer options are -1 when the option
 // is not passed at all (api: the filler default applies; cli: the flag default applies).
 type Case struct {
-	I      int      `json:"i"`
-	Class  string   `json:"class"`
-	Kind   string   `json:"kind"` // tcp udp icmp arp
-	Via    string   `json:"via"`  // api cli
-	VPN    bool     `json:"vpn"`
-	Flags  int      `json:"flags"` // tcp: bit0 FIN 1 SYN 2 RST 3 PSH 4 ACK 5 URG 6 ECE 7 CWR 8 NS
-	TTL    int      `json:"ttl"`
-	IPLen  int      `json:"iplen"`
-	Proto  int      `json:"proto"`
-	IPFlg  int      `json:"ipflags"`
-	Typ    int      `json:"typ"`
-	Code   int      `json:"code"`
-	HasPl  bool     `json:"has_payload"`
-	Pl     string   `json:"payload"`
-	SrcIP  string   `json:"src_ip"`
-	DstIP  string   `json:"dst_ip"`
-	SrcMAC string   `json:"src_mac"`
-	DstMAC string   `json:"dst_mac"`
-	DPort  int      `json:"dport"`
-	Seed   int64    `json:"seed"`
-	Skip   int      `json:"skip"` // number of Fill calls made (and discarded) after seeding, before the observed one
-	Argv   []string `json:"argv,omitempty"`
-	Conc   string   `json:"conc,omitempty"`     // concurrent stage: configuration "kind:vpn"
-	ConcN  int      `json:"conc_n,omitempty"`   // concurrent stage: Fill calls made on the shared filler
-	ConcB  int      `json:"conc_bad,omitempty"` // concurrent stage: frames the pre-filter rejected
+	I       int      `json:"i"`
+	Class   string   `json:"class"`
+	Kind    string   `json:"kind"` // tcp udp icmp arp
+	Via     string   `json:"via"`  // api cli
+	VPN     bool     `json:"vpn"`
+	Flags   int      `json:"flags"` // tcp: bit0 FIN 1 SYN 2 RST 3 PSH 4 ACK 5 URG 6 ECE 7 CWR 8 NS
+	TTL     int      `json:"ttl"`
+	IPLen   int      `json:"iplen"`
+	Proto   int      `json:"proto"`
+	IPFlg   int      `json:"ipflags"`
+	Typ     int      `json:"typ"`
+	Code    int      `json:"code"`
+	HasPl   bool     `json:"has_payload"`
+	Pl      string   `json:"payload"`
+	SrcIP   string   `json:"src_ip"`
+	DstIP   string   `json:"dst_ip"`
+	SrcMAC  string   `json:"src_mac"`
+	DstMAC  string   `json:"dst_mac"`
+	DPort   int      `json:"dport"`
+	Seed    int64    `json:"seed"`
+	Skip    int      `json:"skip"` // number of Fill calls made (and discarded) after seeding, before the observed one
+	Argv    []string `json:"argv,omitempty"`
+	Literal bool     `json:"-"`                  // render printable payload bytes and blanks literally on the command line
+	Conc    string   `json:"conc,omitempty"`     // concurrent stage: configuration "kind:vpn"
+	ConcN   int      `json:"conc_n,omitempty"`   // concurrent stage: Fill calls made on the shared filler
+	ConcB   int      `json:"conc_bad,omitempty"` // concurrent stage: frames the pre-filter rejected
 	// observation
 	Err   string `json:"err"`
 	Frame string `json:"frame"`
@@ -274,6 +275,8 @@ func main() {
 	conc := flag.Int("concurrent", 0, "concurrent stage only: Fill calls per shared filler")
 	workers := flag.Int("workers", 8, "concurrent stage: goroutines sharing one filler")
 	concOnly := flag.String("conc-only", "", "concurrent stage: only this configuration (kind:vpn)")
+	wire := flag.Int("wire", 0, "send-path stage only: requests per (filler, link mode) through multi generator + sender")
+	wireBusy := flag.Duration("wire-busy", 10*time.Microsecond, "send-path stage: how long the writer is busy with a frame")
 	hunt := flag.Int("hunt", 0, "failing-input search: extra Fill calls per builder whose spoofed fields are range-checked")
 	flag.Parse()
 	w := hlib.NewOut(*out)
@@ -303,6 +306,11 @@ func main() {
 		return
 	}
 	g := &gen{r: hlib.NewRand(*seed), w: w, maxpl: *maxpl, huge: *huge, maxsweep: 1472}
+	if *wire > 0 {
+		g.wireStage(*wire, *workers, *wireBusy, *concOnly)
+		fmt.Fprintf(os.Stderr, "c05: send-path stage, %d cases emitted\n", w.N)
+		return
+	}
 	if *conc > 0 {
 		g.concurrentStage(*conc, *workers, *concOnly)
 		fmt.Fprintf(os.Stderr, "c05: concurrent stage, %d cases emitted\n", w.N)
